@@ -24,6 +24,7 @@ func runC04(c *Ctx) {
 	}
 	ruleWatch(c, p, roles, "C04")
 	ruleDiscard(c, p, roles)
+	ruleNoLeak(c, p, roles, "C04.leak")
 	ruleWriterInvariant(c, p, "C04.writer")
 	rulePacketRead(c, p, "C04.packet-read")
 	ruleCloseMarks(c, p, "C04.close-marks")
